@@ -64,14 +64,22 @@ func (s *Server) RunUnix(path string, idleTimeout time.Duration, onBound func(st
 	}
 	arm := func(d time.Duration) {
 		disarm()
-		timer = time.AfterFunc(d, func() {
+		var t *time.Timer
+		t = time.AfterFunc(d, func() {
 			mu.Lock()
 			defer mu.Unlock()
+			if timer != t {
+				// This timer expired, but it was disarmed (a connection was
+				// registered) or re-armed before this func got the mutex: the
+				// idle period it measured is over, so it must not act on it.
+				return
+			}
 			if active == 0 {
 				shutdown = true
 				_ = ul.Close() // unblock Accept
 			}
 		})
+		timer = t
 	}
 	if idleTimeout > 0 {
 		grace := idleTimeout
